@@ -167,6 +167,33 @@ func init() {
 			Quick:  map[string]int{"GRID": 2, "GRIDMAG": 36, "N": 2, "KINDS": 48, "DEPTH": 1, "ITEMKINDS": 71, "NUMSHAPES": 3, "STRSHAPES": 2, "ARRSHAPES": 3},
 			Panic:  "inconclusive"},
 	}, Assumptions: []string{"for type-correct documents yaml.v3's Decode and encoding/json's Unmarshal fill Go values identically (binding by the yaml / json tag of the default tag set)"}})
+	reg(&Property{ID: "C11", Units: []Unit{
+		{Name: "allOf-anyOf/inline-branches", Harness: "pkg/generator:HarnessC11", Layer: "L3",
+			Desc:   "whole generator (resolveRefs, schemas.AllOf/AnyOf with the mergo model, generateAnyOfType/generateAllOfType, anyOfValidator) on a required property x = allOf/anyOf of two object branches over the property names {a, b}: each branch declares a subset, requires some, and puts a symbolic minLength or maxLength on each; emitted code on a symbolic type-correct document: allOf accepted iff every branch's reference model accepts, anyOf iff at least one does",
+			Bounds: "B=2 branches, property sets {a} / {a,b}, one symbolic string-length keyword (or none) per property, documents with a, b absent or strings; mergo is a hand model of deepMerge for the option set the repository uses (validated by native replay)",
+			Quick:  map[string]int{"REF": 0, "NAMES": 2, "CONSTR2": 1, "B": 2}, Thor: map[string]int{"REF": 0, "NAMES": 3, "B": 2},
+			Panic:  "inconclusive"},
+		{Name: "allOf-anyOf/ref-branches", Harness: "pkg/generator:HarnessC11", Layer: "L3",
+			Desc:   "same with both branches given by $ref to definitions",
+			Bounds: "as above, two constraint choices per property",
+			Quick:  map[string]int{"REF": 2, "NAMES": 1, "CONSTR": 3, "B": 2}, Thor: map[string]int{"REF": 1, "NAMES": 2, "CONSTR": 2, "B": 2},
+			Panic:  "inconclusive"},
+	}, Assumptions: []string{"dario.cat/mergo v1.0.1 Merge behaves as the engine's model of deepMerge (Overwrite=false, AppendSlice, TypeList transformer, optional WithoutDereference); primitive-typed branches, oneOf/not and more than two branches are outside the bound"}})
+	reg(&Property{ID: "C18", Units: []Unit{
+		{Name: "fault-injection", Harness: "pkg/generator:HarnessC18", Layer: "L3",
+			Desc:   "a valid schema with one ungeneratable element (unknown type, $ref to a missing definition, empty enum, non-primitive enum value, $ref that does not point to a definition) injected at one of 9 positions (property, array item, nested member, member of a referenced / unreferenced definition, member of an allOf / anyOf branch, own property beside allOf, an allOf branch itself): addFile returns an error on every path and no path panics",
+			Bounds: "5 fault kinds x 9 positions, depth <= 2; the harness stops at generator.addFile (main.go's exit status / stdout / file writes, cobra flag parsing, unparsable or unreadable input files are NOT covered)",
+			Panic:  "violation"},
+		{Name: "valid-shapes-never-fail", Harness: "pkg/generator:HarnessC18Valid", Layer: "L3",
+			Desc:   "every shape of the grammar (all kinds, depth 1) under all combinations of --min-sized-ints / --extra-imports / --only-models with symbolic constraint values: generation succeeds and no panic path is feasible",
+			Bounds: "shape grammar G(1,1) with reduced constraint shapes; exact-grid values",
+			Quick:  map[string]int{"GRID": 2, "GRIDMAG": 36, "NUMSHAPES": 3, "STRSHAPES": 3, "ARRSHAPES": 3},
+			Panic:  "violation"},
+		{Name: "unusual-inputs", Harness: "pkg/generator:HarnessC18Special", Layer: "L3",
+			Desc:   "legal but unusual inputs (a property that is {\"$ref\": \"#\"}, an object default with an empty key, an empty property name): no panic",
+			Bounds: "three concrete shapes",
+			Panic:  "violation"},
+	}})
 	reg(&Property{ID: "C12", Units: []Unit{
 		{Name: "map-order-schedules", Harness: "pkg/generator:HarnessC12", Layer: "L3", MapOrd: 5, SameEmits: true,
 			Desc:   "every `range` over a Go map executed in repository code (sites discovered dynamically: sortedKeys, sortDefinitionsByName, Sources, beginOutput, hasDecl...) is a schedule choice; all orders of maps with <= 3 entries are explored and every schedule must emit byte-identical files under identical names (hole terms compared syntactically)",
